@@ -1,5 +1,5 @@
-From E2V Require Import Parsers.DirWalk.
+From E2V Require Import Parsers.DirWalk Parsers.EaValue.
 Require Extraction.
 Require Import ExtrOcamlBasic.
 Extraction Language OCaml.
-Extraction "dirwalk_model.ml" dir_block_walk.
+Extraction "dirwalk_model.ml" dir_block_walk ea_value_ok.
